@@ -34,7 +34,15 @@ RULE = ("case = (source matrix, target matrix, request). Matrices: 0..4 ECUs fro
         "dictionary, signal list) and every signal (name, comment, layout, sign, scaling, unit, range, receiver list, attribute "
         "dictionary, value table) - and the source reported is the source seen while these edits are in force; the edits are taken "
         "back, the same edits are made to every object of the source, and the target reported is the target seen while those are in "
-        "force. Non-trivial = distinct case in which the target changes.")
+        "force. A fifth stream makes calls of merge with "
+        "several matrices at once, target.merge([a, b, c]) (the method takes a list; two or three sources out of three, now and then the same "
+        "source twice; the target a matrix of its own, a near miss of one source, without ECUs and frames, or a new matrix; sources "
+        "name ECUs they do not list, list ECUs nobody names, and share names and identifiers with each other; one or two such calls per "
+        "history, a single copy or an edit of the target between them): merging applies the frame rule to every frame of every merged "
+        "matrix, so the call is judged once per matrix of the list - source = that matrix, target = the target after the matrices in "
+        "front of it were merged one call each (real code, on a second set of objects), observation = the target after the matrices up "
+        "to and including it went in by ONE call.  The mixed histories make a merge such a call now and then (the third matrix goes in "
+        "first).  Non-trivial = distinct case in which the target changes.")
 PARTIAL = ["everything of a frame/signal/ECU that copying treats as a blob (layout, sign, scaling, unit, range, value table, comment; frame "
            "length, cycle time, FD flag) is compared as an opaque body string; multiplexing, signal groups, PDUs, float/ASCII types, "
            "initial value, frame receivers and mux names are not part of it",
@@ -419,16 +427,82 @@ def gen_history(rng, mode="mixed"):
             names = [e[0] for e in s_desc["ecus"]] or ECUS
             req = ["ecuframes", rng.choice(names) if rng.random() < 0.7 else rand_glob(rng, names), rng.random() < 0.8, rng.random() < 0.8,
                    rng.random() < 0.7, "glob"]
-        c = {"src": s_desc, "tgt": t_desc, "req": req}
-        if steps:
-            c["pre"] = {"mats": mats, "steps": [list(s) for s in steps], "si": si, "ti": ti}
-        yield {"op": "copy", "c": c}
-        njudged += 1
+        if not pair and req == ["merge"] and rng.random() < 0.4:
+            # one call of merge with two matrices: the third matrix goes in first, the judged source second (see gen_calls)
+            oi = [x for x in range(NMATS) if x not in (si, ti)][0]
+            pre = {"mats": mats, "steps": [list(s) for s in steps], "si": si, "ti": ti, "together": [oi]}
+            try:
+                s_desc, t_desc = describe(pre)
+            except Exception:
+                return
+            yield {"op": "copy", "c": {"src": s_desc, "tgt": t_desc, "req": req, "pre": pre}}
+            njudged += 1
+            step = [si, ti, ["mergecall", [oi, si]]]
+        else:
+            c = {"src": s_desc, "tgt": t_desc, "req": req}
+            if steps:
+                c["pre"] = {"mats": mats, "steps": [list(s) for s in steps], "si": si, "ti": ti}
+            yield {"op": "copy", "c": c}
+            njudged += 1
+            step = [si, ti, req]
         try:
-            apply_req(req, world[si], world[ti])
+            apply_step(world, *step)
         except Exception:
             return
-        steps.append([si, ti, req])
+        steps.append(step)
+
+
+def gen_calls(rng):
+    """merge takes a list: target.merge([a, b, c]).  One target, three sources, one or two calls with two or three of the sources each
+    (now and then the same source twice).  'Merging applies the frame rule to every frame of the merged matrices', so a call is judged once
+    per matrix of its list: the case describes that matrix as the source and, as the target, the target after the matrices in front of it were
+    merged one call each (on a second set of objects); the observation is the target after ONE call with the list up to that matrix.  The
+    sources are matrices as files give them: they name ECUs they do not list (an extract of one bus), list ECUs no frame names, share ECU
+    names, identifiers and definitions with each other and with the target."""
+    dense = rng.random() < 0.5
+    mats = [gen_matrix(rng, "t", dense=dense and rng.random() < 0.3)] + [gen_matrix(rng, tag, dense=dense and rng.random() < 0.7) for tag in "suv"]
+    k = rng.random()
+    if k < 0.25:
+        mats[0] = gen_twin(rng, mats[rng.randint(1, 3)])
+    elif k < 0.5:
+        mats[0] = dict(mats[0], ecus=[], frames=[])         # only definitions so far
+    elif k < 0.7:
+        mats[0] = {"ecus": [], "frames": [], "free": [], "fd": [], "sd": [], "ed": []}      # CanMatrix()
+    if rng.random() < 0.5:
+        # a source that is an extract: it lists none / only some of the ECUs it names
+        x = rng.randint(1, 3)
+        mats[x] = dict(mats[x], ecus=[e for e in mats[x]["ecus"] if rng.random() < 0.3])
+    world = [build(m) for m in mats]
+    steps = []
+    for ncall in range(rng.choice([1, 1, 2])):
+        if rng.random() < (0.5 if ncall else 0.25):
+            # something happens to the target before the call: a single copy from one of the sources, or an edit
+            si = rng.randint(1, 3)
+            if rng.random() < 0.6:
+                step = [si, 0, gen_req(rng, snapshot(world[si]), snapshot(world[0]))]
+            else:
+                step = [si, 0, gen_edit(rng, snapshot(world[0]))]
+            try:
+                apply_step(world, *step)
+            except Exception:
+                return
+            steps.append(step)
+        call = rng.sample([1, 2, 3], rng.choice([2, 2, 3]))
+        if rng.random() < 0.15:
+            call.insert(rng.randint(1, len(call)), rng.choice(call))
+        for j, si in enumerate(call):
+            pre = {"mats": mats, "steps": [list(s) for s in steps], "si": si, "ti": 0, "together": call[:j]}
+            try:
+                s_desc, t_desc = describe(pre)
+            except Exception:
+                return
+            yield {"op": "copy", "c": {"src": s_desc, "tgt": t_desc, "req": ["merge"], "pre": pre}}
+        step = [call[-1], 0, ["mergecall", call]]
+        try:
+            apply_step(world, *step)
+        except Exception:
+            return
+        steps.append(step)
 
 
 def gen(rng, tier, shard, nshards):
@@ -449,6 +523,10 @@ def gen(rng, tier, shard, nshards):
     # histories of one source and one target: extraction of an ECU, then frames and merges, edits of the target in between
     for _ in range({"quick": 480, "thorough": 4800}[tier] // nshards):
         for case in gen_history(rng, "pair"):
+            yield case
+    # calls of merge with several matrices at once
+    for _ in range({"quick": 400, "thorough": 4000}[tier] // nshards):
+        for case in gen_calls(rng):
             yield case
 
 
@@ -592,6 +670,32 @@ def apply_req(req, src, tgt):
     return None
 
 
+def apply_step(world, si, ti, req):
+    """one step of a history on the real objects: a request from world[si] to world[ti], or (never a judged request, only the past of
+    one) one call of merge with several matrices, ["mergecall", [k1, k2, ...]]"""
+    if req[0] == "mergecall":
+        world[ti].merge([world[k] for k in req[1]])
+        return None
+    return apply_req(req, world[si], world[ti])
+
+
+def replay(pre):
+    world = [build(m) for m in pre["mats"]]
+    for si, ti, req in pre["steps"]:
+        apply_step(world, si, ti, req)
+    return world
+
+
+def describe(pre):
+    """source and target of the judged step as its history leaves them (objects of their own, made for this description only).
+    pre["together"]: the matrices that go into the target by the same call of merge in front of the source; here each of them is merged by a
+    call of its own"""
+    world = replay(pre)
+    for k in pre.get("together") or []:
+        world[pre["ti"]].merge([world[k]])
+    return snapshot(world[pre["si"]]), snapshot(world[pre["ti"]])
+
+
 POKE = "Poke"
 
 
@@ -691,15 +795,23 @@ def observe(case):
     pre = c.get("pre")
     if pre:
         # the matrices get their history through the real code; the case describes source and target as they are now
-        world = [build(m) for m in pre["mats"]]
-        for si, ti, req in pre["steps"]:
-            apply_req(req, world[si], world[ti])
+        world = replay(pre)
         src, tgt = world[pre["si"]], world[pre["ti"]]
-        if snapshot(src) != c["src"] or snapshot(tgt) != c["tgt"]:
+        together = pre.get("together") or []
+        if (describe(pre) if together else (snapshot(src), snapshot(tgt))) != (c["src"], c["tgt"]):
             raise RuntimeError("the same sequence of copies gives other matrices than when the case was made")
     else:
         src, tgt = build(c["src"]), build(c["tgt"])
-    res = apply_req(c["req"], src, tgt)
+        together = []
+    if together:
+        # one call of merge with several matrices; the case describes the target as the matrices in front of the source leave it when
+        # each is merged by a call of its own, so what is judged is the step the source's frames make within the one call
+        if c["req"] != ["merge"]:
+            raise RuntimeError("only merge takes several matrices")
+        tgt.merge([world[k] for k in together] + [src])
+        res = None
+    else:
+        res = apply_req(c["req"], src, tgt)
     # "independent of it": what the copy left in the target shares nothing with the source.  Every object of the target is edited in place
     # (see edit_in_place) while the source is looked at, the edits are taken back, then every object of the source is edited in place while
     # the target is looked at.  Matrices that share nothing show what they show without the edits.
@@ -778,6 +890,21 @@ def features(case, impl):
             yield "history:the target was filled by an extraction with clean-up before"
         if edits and c["pre"]["steps"][-1][2][0] == "edit":
             yield "history:the target was edited just before"
+        if c["pre"].get("together"):
+            tg = c["pre"]["together"]
+            yield "merge call:matrices in front of the source=%d" % len(tg)
+            if c["pre"]["si"] in tg:
+                yield "merge call:the source is in the list twice"
+            mats = c["pre"]["mats"]
+            named = lambda m: {n for f in m["frames"] for n in f[4] + [r for sg in f[6] for r in sg[2]]}  # noqa
+            listed = lambda m: {e[0] for e in m["ecus"]}  # noqa
+            early = set().union(*[named(mats[k]) - listed(mats[k]) for k in tg])
+            if early & named(c["src"]) & listed(c["src"]):
+                yield "merge call:an ECU the source lists is named but not listed by a matrix in front of it"
+                if early & named(c["src"]) & listed(c["src"]) - listed(c["tgt"]):
+                    yield "merge call:... and the target does not have it"
+        if any(s[2][0] == "mergecall" for s in c["pre"]["steps"]):
+            yield "history:a merge call with several matrices before"
     yield "history:steps before=%d" % (len(c["pre"]["steps"]) if c.get("pre") else 0)
     if c.get("pre") and any(s[1] == c["pre"]["si"] for s in c["pre"]["steps"]):
         yield "history:the source received copies before"
@@ -796,18 +923,34 @@ def shrink_candidates(case):
         # target described as the shorter history leaves them)
         yield {"op": "copy", "c": {"src": c["src"], "tgt": c["tgt"], "req": c["req"]}}
         pre = c["pre"]
+        shorter = []
         for i in range(len(pre["steps"])):
             steps = pre["steps"][:i] + pre["steps"][i + 1:]
-            if not steps:
-                continue
+            if steps or pre.get("together"):
+                shorter.append(dict(pre, steps=steps))
+        tg = pre.get("together") or []
+        for i in range(len(tg)):
+            # one matrix less in the call
+            if pre["steps"] or len(tg) > 1:
+                shorter.append(dict(pre, together=tg[:i] + tg[i + 1:]))
+        for p in shorter:
             try:
-                world = [build(m) for m in pre["mats"]]
-                for si, ti, req in steps:
-                    apply_req(req, world[si], world[ti])
-                s_desc, t_desc = snapshot(world[pre["si"]]), snapshot(world[pre["ti"]])
+                s_desc, t_desc = describe(p)
             except Exception:
                 continue
-            yield {"op": "copy", "c": {"src": s_desc, "tgt": t_desc, "req": c["req"], "pre": dict(pre, steps=steps)}}
+            yield {"op": "copy", "c": {"src": s_desc, "tgt": t_desc, "req": c["req"], "pre": p}}
+        if tg:
+            # smaller matrices in the call: one frame / ECU / definition less in one of the matrices of the history
+            for mi, m in enumerate(pre["mats"]):
+                for part in ("frames", "ecus", "fd", "sd", "ed"):
+                    for i in range(len(m[part])):
+                        nm = dict(m, **{part: m[part][:i] + m[part][i + 1:]})
+                        p = dict(pre, mats=pre["mats"][:mi] + [nm] + pre["mats"][mi + 1:])
+                        try:
+                            s_desc, t_desc = describe(p)
+                        except Exception:
+                            continue
+                        yield {"op": "copy", "c": {"src": s_desc, "tgt": t_desc, "req": c["req"], "pre": p}}
         return
     for key in ("src", "tgt"):
         m = c[key]
